@@ -69,10 +69,10 @@ type valExpect struct {
 	writes []refWrite
 	pulls  []*absint.Int
 	skip   map[string]bool
-	alt    map[string]*refVal // an equivalent spelling of fields[name], accepted as well
+	alt    map[string]*refVal       // an equivalent spelling of fields[name], accepted as well
 	when   map[string]*absint.BExpr // fields[name] is prescribed only on paths where this holds
-	forced map[string]bool // propositions fixed for this comparison
-	bools  map[string]bool // boolean fields (Stopped)
+	forced map[string]bool          // propositions fixed for this comparison
+	bools  map[string]bool          // boolean fields (Stopped)
 }
 
 var valueFlagNames = []string{"N", "V", "M", "X", "D", "I", "Z", "C", "E"}
@@ -320,8 +320,8 @@ func refSemantics(rc *refCell, bc *absint.BoolCtx, decimal bool) (*valExpect, st
 			n := w / 4
 			for i := 0; i < n; i++ {
 				sh := uint(4 * i)
-				below := (uint64(1) << sh) - 1          // digits under digit i
-				upto := (uint64(1) << (sh + 4)) - 1     // digits 0..i
+				below := (uint64(1) << sh) - 1      // digits under digit i
+				upto := (uint64(1) << (sh + 4)) - 1 // digits 0..i
 				if i == n-1 {
 					ovf = sum
 				}
@@ -981,23 +981,23 @@ func compareValueWhen(rc *refCell, bc *absint.BoolCtx, impl *absint.Int, ref *re
 	}
 	pe.resolve(impl.Lin, func(got *absint.Int) {
 		guarded(func() {
-		pe.resolveRef(ref, func(want *absint.Int) {
-			if diff != "" {
-				return
-			}
-			g, w := got, want
-			if w.W != g.W {
-				if w.W > g.W {
-					g = rc.o.Convert(g, w.W, false, false)
-				} else {
-					w = rc.o.Convert(w, g.W, false, false)
+			pe.resolveRef(ref, func(want *absint.Int) {
+				if diff != "" {
+					return
 				}
-			}
-			if g.Lin.Key() != w.Lin.Key() {
-				diff = fmt.Sprintf("is %s, the model prescribes %s%s", trunc(g.Lin.Key()), trunc(w.Lin.Key()), pe.describe())
-				pe.over = true
-			}
-		})
+				g, w := got, want
+				if w.W != g.W {
+					if w.W > g.W {
+						g = rc.o.Convert(g, w.W, false, false)
+					} else {
+						w = rc.o.Convert(w, g.W, false, false)
+					}
+				}
+				if g.Lin.Key() != w.Lin.Key() {
+					diff = fmt.Sprintf("is %s, the model prescribes %s%s", trunc(g.Lin.Key()), trunc(w.Lin.Key()), pe.describe())
+					pe.over = true
+				}
+			})
 		})
 	})
 	if diff == "" && pe.over {
@@ -1209,7 +1209,7 @@ func checkValues(ctx *Ctx, isa *ISA, m *CPUModel, rs string, results []*CellResu
 					add(key(name), c.Opcode, fmt.Sprintf("cell %s: %s is %s", c, name, absint.ValKey(r.Final[name])))
 				}
 			}
-	
+
 		}(ji)
 	}
 	wg.Wait()
@@ -1250,7 +1250,6 @@ func checkValues(ctx *Ctx, isa *ISA, m *CPUModel, rs string, results []*CellResu
 	}
 	R.Count("value-mnemonics", len(mns))
 }
-
 
 // sameTerm decides whether two abstract integers, possibly built in different
 // interpreter runs, denote the same function of the entry symbols: equal keys, or
@@ -1336,7 +1335,6 @@ func hasInexactMerge(v absint.Val) bool {
 	}
 	return strings.Contains(iv.Lin.Key(), "join#")
 }
-
 
 // resolveUnder re-evaluates x on the paths where the given canonical propositions have
 // the given truth values: gated merges whose conditions (however written, however
